@@ -209,6 +209,9 @@ class _LegacyRecordBatchPy(LegacyRecordBase, LegacyRecordBatchProtocol):
         buffer_len = len(self._buffer)
         while pos < buffer_len:
             header = self._read_header(pos)
+            if header[1] < 0:  # length
+                # would walk backwards (or never advance)
+                raise CorruptRecordException("Corrupted compressed message")
             msgs.append((header, pos))
             pos += self.LOG_OVERHEAD + header[1]  # length
         return msgs
